@@ -230,25 +230,32 @@ def run(repo, chk):
         chk.fn(dfn)
         if base == "BinaryOperator":
             f = bin_ops.get(op)
-            for leafvar in ((True, False) if op == "pow" else (None,)):
-                def ch(name, node, args, kwargs, st, ex, recv):
+            combos = [(False, False), (False, True), (True, True), (True, False)] if op == "pow" else [None]
+            for combo in combos:
+                def ch(name, node, args, kwargs, st, ex, recv, combo=combo):
+                    if combo is not None and name == "self._operand2.is_leaf":
+                        return combo[0]
+                    if combo is not None and name == "self._operand2.is_variable_type":
+                        return combo[1]
                     return py_calls(name, node, args, kwargs, st, ex, recv)
-                decisions = {}
-                ex = SymExec(call_hook=ch, test_hook=lambda t, n, s, lv=leafvar: lv)
+                ex = SymExec(call_hook=ch)
                 val = {"self._operand1": v1, "self._operand2": v2, "self": f}
                 der = {"self": D, "self._operand1": sp.Integer(0), "self._operand2": sp.Integer(0)}
                 outs = ex.run(dfn, {"val_dict": val, "der_dict": der, "self": Opaque("self")})
+                if len(outs) != 1:
+                    raise ExtractError("%s.diff_down: %d paths" % (cname, len(outs)))
                 o = outs[0]
                 d1, d2 = o.env["der_dict"]["self._operand1"], o.env["der_dict"]["self._operand2"]
-                chk.expect(is_zero(sp.sympify(d1) - D * sp.diff(f, v1)), "R-C15-3", "%s.diff_down: operand1 receives der * d(op)/d(operand1)" % cname, loc(dfn),
+                tag = "" if combo is None else " [exponent %s, %s]" % ("leaf" if combo[0] else "expression", "variable type" if combo[1] else "constant type")
+                chk.expect(is_zero(sp.sympify(d1) - D * sp.diff(f, v1)), "R-C15-3", "%s.diff_down: operand1 receives der * d(op)/d(operand1)%s" % (cname, tag), loc(dfn),
                            expected=str(D * sp.diff(f, v1)), found=str(d1))
-                want2 = D * sp.diff(f, v2) if leafvar in (None, True) else 0
-                tag = "" if leafvar is None else (" [exponent is a variable or expression]" if leafvar else " [exponent is a constant leaf]")
-                chk.expect(is_zero(sp.sympify(d2) - want2), "R-C15-3", "%s.diff_down: operand2 receives der * d(op)/d(operand2)%s" % (cname, tag), loc(dfn),
-                           expected=str(want2), found=str(d2))
-            if op == "pow":
-                src = unparse(dfn)
-                chk.expect("not self._operand2.is_leaf() or self._operand2.is_variable_type()" in src, "R-C15-3", "PowerOperator differentiates w.r.t. the exponent whenever it is not a constant leaf", loc(dfn))
+                full = D * sp.diff(f, v2)
+                if combo == (True, False):
+                    okd = is_zero(sp.sympify(d2)) or is_zero(sp.sympify(d2) - full)     # constant exponent: derivative not needed
+                else:
+                    okd = is_zero(sp.sympify(d2) - full)
+                chk.expect(okd, "R-C15-3", "%s.diff_down: operand2 receives der * d(op)/d(operand2)%s" % (cname, tag), loc(dfn),
+                           "every variable reached through the exponent needs v1**v2*log(v1) propagated, else its Jacobian entry is silently 0", expected=str(full), found=str(d2))
         elif base == "UnaryOperator":
             ex = SymExec(call_hook=py_calls)
             val = {"self._operand": v, "self": un_ops.get(op, sp.Symbol("f"))}
